@@ -17,7 +17,7 @@ if [[ $what == *seeds* ]]; then
   for d in seeded/C*/; do
     s=$(basename $d); id=$(python3 -c "import json;print(json.load(open('$d/meta.json'))['breaks_property'])")
     git -C /repo checkout -q -- .
-    if ! git -C /repo apply $d/patch.diff 2>/dev/null; then echo "$s $id PATCH-DOES-NOT-APPLY" >> $OUT/seeds.txt; continue; fi
+    if ! git -C /repo apply /verif/$d/patch.diff 2>/dev/null; then echo "$s $id PATCH-DOES-NOT-APPLY" >> $OUT/seeds.txt; continue; fi
     ./check $id --tier quick > $OUT/seed-$s.log 2>&1; rc=$?
     echo "$s $id exit=$rc $(grep -E '^(VIOLATION|INCONCLUSIVE|OK)' $OUT/seed-$s.log | head -1 | cut -c1-160)" >> $OUT/seeds.txt
     git -C /repo checkout -q -- .
@@ -31,7 +31,7 @@ if [[ $what == *benign* ]]; then
   for p in seeded/benign/*.diff; do
     b=$(basename $p .diff); area=${b%-*}
     git -C /repo checkout -q -- .
-    if ! git -C /repo apply $p 2>/dev/null; then echo "$b PATCH-DOES-NOT-APPLY" >> $OUT/benign.txt; continue; fi
+    if ! git -C /repo apply /verif/$p 2>/dev/null; then echo "$b PATCH-DOES-NOT-APPLY" >> $OUT/benign.txt; continue; fi
     for id in ${CH[$area]}; do
       ./check $id --tier quick > $OUT/benign-$b-$id.log 2>&1; rc=$?
       echo "$b $id exit=$rc $(grep -E '^(VIOLATION|INCONCLUSIVE|OK)' $OUT/benign-$b-$id.log | head -1 | cut -c1-200)" >> $OUT/benign.txt
